@@ -1,10 +1,11 @@
 /-
 C05 — `Group.terminate(timeout)` returns promptly and leaves no local child behind.
-Property theorems only; model `Model/Terminate.lean`, `Model/MakeGateway.lean`; helper lemmas
-`Proofs/TerminateLemmas.lean`.
+Property theorems only; models `Model/Terminate.lean`, `Model/MakeGateway.lean`, `Model/MakeGatewayConc.lean`; helper
+lemmas `Proofs/TerminateLemmas.lean`, `Proofs/MakeGatewayConcLemmas.lean`.
 -/
 import ExecnetVerif.Proofs.TerminateLemmas
 import ExecnetVerif.Model.MakeGateway
+import ExecnetVerif.Proofs.MakeGatewayConcLemmas
 import ExecnetVerif.Generated.Tables
 namespace ExecnetVerif
 open Terminate
@@ -441,6 +442,90 @@ individually is never joined once no registered member remains -/
 theorem C05_pinned_loop_test_counterexample :
     ∃ g : Group, g.toJoin ≠ [] ∧ loopTestPinned g = false ∧ loopTest g = true :=
   ⟨⟨[], [⟨1, none, .stuck, .effective⟩]⟩, by decide⟩
+
+/-! ### overlapping makegateway calls -/
+
+section Concurrent
+open MakeGatewayConc
+
+/-- where the current source reserves the id (before the `try`) and what its error path releases
+(`_reserved_ids.discard(spec.id)`), read off `Group.makegateway`, `_reserve_id`, `_register` by the translator -/
+theorem C05_reservation_pinned :
+    codeCfg = good ∧
+    Generated.reserveIdSteps = [(0, "if spec.id is None"), (1, "self._allocate_id(spec)"), (0, "else"),
+      (1, "if self._id_taken(spec.id)"), (2, "raise ValueError"), (0, "self._reserved_ids.add(spec.id)")] ∧
+    Generated.registerSteps = ["self._gateways.append(gateway)", "self._reserved_ids.discard(gateway.id)"] := by
+  decide
+
+/-- **C05 (overlapping makegateway calls).** For every interleaving of any number of makegateway calls — explicit
+and automatic ids, refused calls, calls whose process cannot be started or dies during the bootstrap — every process the
+group created is the process of a registered member (`terminate` therefore reaches it): no call is ever refused by
+`_register` with its process left running, and no two members share an id. -/
+theorem C05_no_orphan_concurrent (ops : List Op) :
+    (run codeCfg init ops).2.orphans = [] ∧
+    (run codeCfg init ops).2.procs = (run codeCfg init ops).2.members ∧
+    (run codeCfg init ops).2.members.Nodup := by
+  rw [C05_reservation_pinned.1]
+  have h := inv_run init inv_init ops
+  exact ⟨h.noOrphans, h.procs, h.mnodup⟩
+
+/-- a call that is refused because the id is taken changes nothing (in particular not the reservation of the call
+that holds the id) -/
+theorem C05_refused_call_inert (w : W) (c id : Nat) (h : (step codeCfg w (.begin c (some id))).1 = .idTaken) :
+    (step codeCfg w (.begin c (some id))).2 = w := by
+  rw [C05_reservation_pinned.1] at *
+  simp only [step] at *
+  split at h
+  · simp at h
+  · split at h
+    · rename_i hany ht
+      simp [hany, ht, good]
+    · simp at h
+
+/-- a call that fails after its reservation gives the id back: the next call for that id is accepted -/
+theorem C05_failed_call_releases (ops : List Op) (c id c2 : Nat)
+    (hin : (c, id) ∈ (run codeCfg init ops).2.inflight)
+    (hc2 : ((run codeCfg init ops).2.inflight.filter (·.1 != c)).any (·.1 == c2) = false) :
+    let w1 := (step codeCfg (run codeCfg init ops).2 (.finish c true)).2
+    (step codeCfg w1 (.begin c2 (some id))).1 = .reserved id := by
+  rw [C05_reservation_pinned.1] at *
+  have h := inv_run init inv_init ops
+  generalize (run good init ops).2 = w at *
+  have hfind : ∃ c', w.inflight.find? (·.1 == c) = some (c', id) := by
+    cases hf : w.inflight.find? (·.1 == c) with
+    | none =>
+      have := List.find?_eq_none.mp hf (c, id) hin
+      simp at this
+    | some p =>
+      obtain ⟨c', id'⟩ := p
+      have hm := find_mem hf
+      have : id' = id := h.cuniq _ _ _ hm hin
+      exact ⟨c', this ▸ rfl⟩
+  obtain ⟨c', hf⟩ := hfind
+  simp only [step, hf]
+  have hnr : id ∉ (w.reserved.erase id) := List.Nodup.not_mem_erase h.rnodup
+  have hnm : id ∉ w.members := h.fresh id (h.held _ _ hin)
+  simp [release, good, taken, hnr, hnm, hc2]
+
+/-- **the reservation inside the `try` block** (a well-meant "keep everything in one try") is not harmless: a refused
+call releases the reservation of the call still in flight, a third call starts a second process for the id, and
+`_register` refuses one of the two with its process left running, unknown to the group -/
+theorem C05_reserve_inside_try_counterexample :
+    (run { reserveBeforeTry := false, errorPathReleases := true } init
+      [.begin 0 (some 7), .begin 1 (some 7), .begin 2 (some 7), .finish 0 false, .finish 2 false]).2.orphans = [7] := by
+  decide
+
+/-- an error path that does not release the id makes the id unusable for ever after one failed call -/
+theorem C05_no_release_counterexample :
+    (run { reserveBeforeTry := true, errorPathReleases := false } init
+      [.begin 0 (some 7), .finish 0 true, .begin 1 (some 7)]).1 = [.reserved 7, .failed, .idTaken] := by
+  decide
+
+example : (run codeCfg init [.begin 0 (some 7), .begin 1 (some 7), .begin 2 none, .finish 0 false, .begin 3 (some 7),
+    .finish 2 true, .begin 4 none, .finish 4 false]).1 =
+    [.reserved 7, .idTaken, .reserved 0, .ok 7, .idTaken, .failed, .reserved 1, .ok 1] := by decide
+
+end Concurrent
 
 /-! ### non-vacuity -/
 
